@@ -1059,5 +1059,47 @@ def r12_21(ctx):
     return r
 
 
+def r12_22(ctx):
+    """'Every delivered message equals exactly one submitted message of the same channel', 'a channel opened in-band appears
+    at the peer with the label ... it was created with': stream ids are one namespace for negotiated and in-band channels.
+    The id search of create_data_channel has to treat every live channel's id as taken; a search that only looks at
+    in-band channels of the local parity hands a live negotiated channel's id to a new in-band channel, whose OPEN the
+    peer merely acknowledges. Decided: neither the id-search loop nor any closure of create_data_channel branches on a
+    registered channel's `negotiated` flag or filters by parity."""
+    r = RuleResult("R12.22", "K6", "the stream-id search treats the id of every live channel as taken")
+    fn = "peer_connection::PeerConnection::create_data_channel"
+    b = ctx.body(fn)
+    r.scope.append(fn)
+    bad = None
+    for nb in ctx.facts.all_bodies():
+        if not nb.name.startswith(fn + "::{closure"):
+            continue
+        for sb in range(len(nb.blocks)):
+            if nb.blocks[sb]["t"]["k"] == "switch" and sb not in nb.cleanup and mir.has_field(nb.switch_info(sb)[0], "negotiated"):
+                bad = (nb, sb)
+        for bi, si, st in nb.assigns():
+            if st["p"]["l"] == 0 and mir.has_field(nb.term_rvalue(st["rv"]), "negotiated"):
+                bad = (nb, bi)
+    # the scan loop: blocks of loops that compare a registered channel's id
+    scans = 0
+    for h, blocks in b.loops():
+        cmp_id = [sb for sb in blocks if b.blocks[sb]["t"]["k"] == "switch" and mir.has_field(b.switch_info(sb)[0], "id")]
+        if not cmp_id:
+            continue
+        scans += 1
+        for sb in blocks:
+            if b.blocks[sb]["t"]["k"] == "switch" and sb not in b.cleanup and mir.has_field(b.switch_info(sb)[0], "negotiated") and \
+                    mir.has(b.switch_info(sb)[0], lambda x: x[0] == "call" and x[1].endswith("::upgrade")):
+                bad = (b, sb)
+    if bad:
+        nb, sb = bad
+        r.violate(fn, "id-search:filtered", nb.where(sb),
+                  "the search for a free stream id leaves out registered channels by their `negotiated` flag: the id of a live pre-negotiated "
+                  "channel can be handed to a new in-band channel - it is never announced and its messages come out of the other channel")
+    else:
+        r.ok({"id search": "every live registered channel counts", "scan loops": scans})
+    return r
+
+
 def run(ctx):
-    return [r12_1(ctx), r12_2(ctx), r12_2b(ctx), r12_3(ctx), r12_4(ctx), r12_5(ctx), r12_7(ctx), r12_8(ctx), r12_9(ctx), r12_10(ctx), r12_11(ctx), r12_12(ctx), r12_13(ctx), r12_14(ctx), r12_15(ctx), r12_16(ctx), r12_17(ctx), r12_18(ctx), r12_19(ctx), r12_20(ctx), r12_21(ctx)]
+    return [r12_1(ctx), r12_2(ctx), r12_2b(ctx), r12_3(ctx), r12_4(ctx), r12_5(ctx), r12_7(ctx), r12_8(ctx), r12_9(ctx), r12_10(ctx), r12_11(ctx), r12_12(ctx), r12_13(ctx), r12_14(ctx), r12_15(ctx), r12_16(ctx), r12_17(ctx), r12_18(ctx), r12_19(ctx), r12_20(ctx), r12_21(ctx), r12_22(ctx)]
